@@ -36,6 +36,7 @@ FN = 'mask_dict_password'
 # both functions must be the definitions bound to their names at run time (tools/gen/failclosed.py); the defaults are emitted
 FAILCLOSED = {'generate_shape': [{'src': SRC, 'mod': 'oslo_utils.strutils',
     'functions': {FN: {'defaults': {'secret': failclosed.ANY}}, 'mask_password': {'defaults': {'secret': failclosed.ANY}}}}]}
+FAILCLOSED['generate_frame'] = FAILCLOSED['generate_shape']
 EXN_NAMES = ['KeyError', 'AttributeError', 'IndexError', 'ValueError', 'TypeError', 'RuntimeError',
              'UnicodeDecodeError', 'OverflowError', 'StopIteration', 'OSError']
 
@@ -274,6 +275,76 @@ def generate_shape():
     return '\n'.join(out) + '\n'
 
 
+_DICT_MUTATORS = {'update', 'pop', 'popitem', 'setdefault', 'clear', '__setitem__', '__delitem__', 'move_to_end'}
+
+def generate_frame():
+    """Gen/C08_Frame.v — WHERE mask_dict_password writes and WHAT it returns (object identity):
+         OUT = {} | dict() | OrderedDict() | D          -> gen_out_init  (InitFresh kind | InitArg)
+         every  X[..] = .. / X[..] op= .. / del X[..] / X.update(..) ... in the function, X in {OUT, D}
+                                                         -> gen_store_vars (which of the two variables are written to)
+         return OUT | return D                           -> gen_return_var
+       Tolerant on purpose (an in-place edit must be TRANSLATED so that the frame theorems break), but fail-closed:
+       a write through any other name, a second dict-valued local, a rebinding of D or OUT, or any other return -> GenError."""
+    failclosed.check_all(FAILCLOSED['generate_frame'])
+    m = repo_import('oslo_utils.strutils')
+    tree = repo_ast(SRC)
+    f = find_def(tree, FN)
+    if not f.args.args: raise GenError('%s has no parameter' % FN)
+    D = f.args.args[0].arg
+    params = {a.arg for a in f.args.args + f.args.kwonlyargs}
+    body = list(f.body)
+    if body and isinstance(body[0], ast.Expr) and isinstance(body[0].value, ast.Constant) and isinstance(body[0].value.value, str):
+        body = body[1:]
+    tr = _Tr(m, f)
+    # the one top-level statement that initialises OUT
+    inits = [s for s in body if isinstance(s, ast.Assign) and len(s.targets) == 1 and isinstance(s.targets[0], ast.Name)]
+    if len(inits) != 1: raise GenError('%s: expected exactly one top-level "OUT = ..." statement' % FN)
+    OUT = inits[0].targets[0].id
+    if OUT in params: raise GenError('%s: a parameter is rebound' % FN)
+    v = inits[0].value
+    if isinstance(v, ast.Dict) and not v.keys: init = 'InitFresh 0'
+    elif isinstance(v, ast.Call) and not v.args and not v.keywords and tr.ev(v.func) is dict: init = 'InitFresh 0'
+    elif isinstance(v, ast.Call) and not v.args and not v.keywords and tr.ev(v.func) is collections.OrderedDict: init = 'InitFresh 1'
+    elif isinstance(v, ast.Name) and v.id == D: init = 'InitArg'
+    else: raise GenError('%s: OUT is initialised with something other than a fresh empty dict or the argument' % FN)
+    # D and OUT are bound nowhere else
+    for n in ast.walk(f):
+        if isinstance(n, ast.Name) and isinstance(n.ctx, (ast.Store, ast.Del)) and n.id in (D, OUT) and n is not inits[0].targets[0]:
+            raise GenError('%s: %s is rebound' % (FN, n.id))
+        if isinstance(n, (ast.Global, ast.Nonlocal, ast.NamedExpr, ast.Lambda, ast.FunctionDef, ast.ClassDef)) and n is not f:
+            raise GenError('%s: nested scope / global / walrus' % FN)
+    # every write through a subscript or a mutating method
+    written = []
+    def note(base, node):
+        if isinstance(base, ast.Name) and base.id in (D, OUT):
+            w = 'VarArg' if base.id == D else 'VarOut'
+            if w not in written: written.append(w)
+        else:
+            raise GenError('line %d: a write through something other than the argument or OUT' % node.lineno)
+    for n in ast.walk(f):
+        if isinstance(n, ast.Subscript) and isinstance(n.ctx, (ast.Store, ast.Del)): note(n.value, n)
+        elif isinstance(n, ast.Attribute) and isinstance(n.ctx, (ast.Store, ast.Del)): raise GenError('line %d: attribute store' % n.lineno)
+        elif isinstance(n, ast.Call) and isinstance(n.func, ast.Attribute) and n.func.attr in _DICT_MUTATORS: note(n.func.value, n)
+        elif isinstance(n, ast.Call) and isinstance(n.func, ast.Name) and n.func.id in ('setattr', 'delattr', 'exec', 'eval', 'vars', 'locals', 'globals'):
+            raise GenError('line %d: %s()' % (n.lineno, n.func.id))
+    if not written: raise GenError('%s: nothing is stored' % FN)
+    # D and OUT escape only as: isinstance(D, ..), D.items(), the error message, OUT[..] = .., return
+    rets = [n for n in ast.walk(f) if isinstance(n, ast.Return)]
+    if len(rets) != 1 or rets[0] is not body[-1] or not isinstance(rets[0].value, ast.Name) or rets[0].value.id not in (D, OUT):
+        raise GenError('%s: the function does not end in the single statement "return OUT" / "return D"' % FN)
+    ret = 'VarArg' if rets[0].value.id == D else 'VarOut'
+    out = [HEADER % (SRC, 'tools/gen/gen_C08.py')]
+    out.append('Require Import OV.Base.Bytes OV.Model.C08_Syntax.')
+    out.append('Open Scope N_scope.')
+    out.append('(* %s = ... before the loop *)' % OUT)
+    out.append('Definition gen_out_init : out_init := %s.' % init)
+    out.append('(* the variables written through (X[k] = ..., del X[k], X.update(..), ...) anywhere in the function *)')
+    out.append('Definition gen_store_vars : list hvar := [%s].' % '; '.join(written))
+    out.append('(* return ... *)')
+    out.append('Definition gen_return_var : hvar := %s.' % ret)
+    return '\n'.join(out) + '\n'
+
+
 if __name__ == '__main__':
     import sys
-    sys.stdout.write(generate_keys()); sys.stdout.write(generate_shape())
+    sys.stdout.write(generate_keys()); sys.stdout.write(generate_shape()); sys.stdout.write(generate_frame())
